@@ -16,7 +16,7 @@ META = dict(
     watchdog_s={"quick": 1500, "thorough": 5400},
     evaluations_counter="cases",
     min={"backward_passes": 400, "grad_checks:input": 400, "grad_checks:weight": 200, "grad_checks:bias": 100,
-         "frozen_checks": 80, "weight_updates": 150, "noncontiguous_upstream": 60},
+         "frozen_checks": 80, "weight_updates": 150, "noncontiguous_upstream": 60, "quantized_inputs": 80},
     anchors=["tensor/qtensor_func.py:QTensorLinear.forward", "tensor/qtensor_func.py:QTensorLinear.backward",
              "tensor/quantizers/symmetric.py:SymmetricQuantizer.backward", "nn/qmodule.py:QModuleMixin.qweight"],
     rule="case = quantized Linear or Conv2d (all weight qtypes, activations None/qint8/qfloat8, three dtypes, bias "
@@ -145,10 +145,20 @@ def run(ctx):
                 continue
             for step in range(n_upd + 1):
                 x = torch.from_numpy(r.standard_normal(xshape)).to(wd).requires_grad_(True)
-                seen.clear()
                 model.zero_grad(set_to_none=True)
+                qin = None
                 try:
-                    out = model(x)
+                    inp = x
+                    if aq is not None and r.random() < 0.45:
+                        # the module is fed an already quantized activation (same or another qtype), as the next layer of a
+                        # model would be: the gradient must still reach the float tensor it was quantized from
+                        qin = ["qint8", "qfloat8_e4m3fn", "qfloat8_e5m2"][int(r.integers(3))]
+                        qmax = 127.0 if qin == "qint8" else float(torch.finfo(oq.qtypes[qin].dtype).max)
+                        sc = (x.detach().abs().max().to(F64) / qmax).clamp(min=1e-6).to(wd)
+                        inp = orig_qa(x, oq.qtypes[qin], sc)
+                        ctx.count("quantized_inputs")
+                    seen.clear()
+                    out = model(inp)
                     o = out.dequantize() if hasattr(out, "qtype") else out
                     G = upstream(r, upk, tuple(o.shape), wd)
                     if not G.is_contiguous():
@@ -167,11 +177,20 @@ def run(ctx):
                     W64 = oracles.plain(q.qweight.dequantize()).to(F64)
                     x_eff = x.detach()
                     if aq is not None:
-                        cand = [qo for (t, qo) in seen if t is x or (tuple(t.shape) == tuple(x.shape) and torch.equal(t.detach(), x.detach()))]
-                        if not cand:
-                            ctx.violation(dict(sig0, kind="input_not_quantized"), dict(desc=desc))
-                            break
-                        x_eff = oracles.plain(cand[0].dequantize())
+                        # what the module actually fed to its float function: its own first quantization of something of the
+                        # input's shape (input quantization or re-quantization); else the quantized input as given
+                        cand = [qo for (t, qo) in seen if tuple(t.shape) == tuple(x.shape)]
+                        if qin is None:
+                            if not cand:
+                                ctx.violation(dict(sig0, kind="input_not_quantized"), dict(desc=desc))
+                                break
+                            x_eff = oracles.plain(cand[0].dequantize())
+                        else:
+                            same = oq.qtypes[qin] == q.activation_qtype
+                            if not same and (not cand or tuple(o.shape) == tuple(x.shape) and len(cand) < 2):
+                                ctx.violation(dict(sig0, kind="input_not_requantized"), dict(desc=desc))
+                                break
+                            x_eff = oracles.plain(inp.dequantize()) if same else oracles.plain(cand[0].dequantize())
                     X64 = x_eff.to(F64)
                     G64 = oracles.plain(G).to(F64)
                 Wl = W64.clone().requires_grad_(True)
